@@ -247,6 +247,17 @@ mod verif_in_ctx_pkt {
     //@ claim: one Context::handle_packet step for an acknowledgement of one of the client's own requests, from every valid pre-state: the step returns Ok (an acknowledgement nobody waits for, or whose caller has dropped the operation, is absorbed and never ends run()); nothing is written; exactly the waiter registered under this acknowledgement's type and packet identifier is removed and completed with this very packet (identifier and reason code), every other waiter stays registered and pending; PUBACK, PUBCOMP and a PUBREC with reason >= 0x80 free exactly one send-quota slot (never beyond Receive Maximum), a PUBREC < 0x80 and every other acknowledgement leave the quota alone; PUBACK and PUBREC take the stored PUBLISH, PUBCOMP the stored PUBREL out of the retransmit queue, every other entry stays, in order and unchanged; Receive Maximum, Maximum Packet Size, the session expiry interval and the stream registrations are untouched
     //@ bounds: Receive Maximum 1..=65535 and quota 0..=R symbolic, Maximum Packet Size / expiry interval arbitrary; the acknowledgement's packet identifier 0x0102 and a second outstanding operation of the same kind with identifier 0x0201 (concrete: queue positions must be constants; identifier agreement for all values is action_id_agree); waiter queue of 1-2 entries and retransmit queue of 1-2 entries in the positions named by the harness (_w1 addressed waiter first, _w2 second, _none absent, _cancelled caller gone); reason code fixed per harness (0x00, or 0x80/0x92 in the _fail variants); acknowledgements without reason string / user properties (their decoding is C02)
     //@ funcs: Context::handle_packet, utils::rx_action_id, utils::linear_search_by_key
+    //@ h name=step_pkt_puback_w2_r1 props=C05,C10,C17 tier=quick cap=small to=1200
+    //@ h name=step_pkt_pubrec_w1_r2 props=C05,C10,C17 tier=quick cap=small to=1200
+    //@ h name=step_pkt_pubcomp_w2_r1 props=C05,C10,C17 tier=thorough cap=small to=1200
+    //@ h name=step_pkt_puback_pruned props=C10,C15,C17 tier=thorough cap=small to=1200 mem=30
+    //@ claim: as step_pkt_*, with the waiter queue and the retransmit queue NOT aligned (the addressed waiter second in line while its stored packet is first, or the other way round; _pruned: no waiter left for the acknowledgement but its stored packet still queued): the position in one queue says nothing about the other
+    //@ bounds: as step_pkt_*
+    //@ funcs: Context::handle_packet, utils::rx_action_id, utils::linear_search_by_key
+    step_ack!(step_pkt_puback_w2_r1, PUBACK, 0x00, 1, 2);
+    step_ack!(step_pkt_pubrec_w1_r2, PUBREC, 0x00, 2, 1);
+    step_ack!(step_pkt_pubcomp_w2_r1, PUBCOMP, 0x00, 1, 2);
+    step_ack!(step_pkt_puback_pruned, PUBACK, 0x00, 0, 1);
     step_ack!(step_pkt_puback_w2, PUBACK, 0x00, 1, 1);
     step_ack!(step_pkt_puback_w1_fail, PUBACK, 0x80, 2, 2);
     step_ack!(step_pkt_puback_none, PUBACK, 0x00, 0, 0);
@@ -484,4 +495,83 @@ mod verif_in_ctx_pkt {
     step_pub!(step_pub_q1_nosid, 1, 0, 1);
     step_pub!(step_pub_q1_sid_alive, 1, 1, 1);
     step_pub!(step_pub_q2_sid_dropped, 2, 1, 2);
+
+    // ------------------------------------------------------------------ packets the server must not send now
+    //@ h name=step_pkt_unexpected_auth props=C04 tier=quick cap=small to=900
+    //@ h name=step_pkt_unexpected_connack props=C04 tier=quick cap=small to=900
+    //@ claim: one Context::handle_packet step for a packet type that is not expected while run() is serving (a second CONNACK, an AUTH nobody asked for): the step does not panic; it either keeps serving (Ok) or returns an error; nothing is written and quota, waiters and the retransmit queue are left as they were
+    //@ bounds: AUTH with every reason code the decoder can produce and no properties; CONNACK with default fields; one outstanding waiter and retransmit entry; R / quota symbolic
+    //@ funcs: Context::handle_packet, utils::rx_action_id
+    fn step_unexpected_body(which: u8) {
+        let mut cx = task_cx();
+        let mut tx = TxPacketStream::from(RecTx::new());
+        let r: u16 = kani::any();
+        let q: u16 = kani::any();
+        kani::assume(r >= 1 && q <= r);
+        let mut connection = Connection { disconnection_timestamp: None, session_expiry_interval: kani::any(), remote_receive_maximum: r, remote_max_packet_size: kani::any(), send_quota: q };
+        let mut session = Session { awaiting_ack: VecDeque::new(), subscriptions: VecDeque::new(), retrasmit_queue: VecDeque::new() };
+        let (s0, mut rcv0) = oneshot::channel::<Result<RxPacket, MqttError>>();
+        session.awaiting_ack.push_back((aid(PUBACK, 7), s0));
+        static STORED: [u8; 4] = [0x3a, 2, 0, 7];
+        session.retrasmit_queue.push_back((aid(PUBACK, 7), Bytes::from_static(&STORED)));
+        let pkt = if which == 0 {
+            let code: u8 = kani::any();
+            let reason = match AuthReason::try_from(code) {
+                Ok(x) => x,
+                Err(e) => {
+                    core::mem::forget(e);
+                    kani::assume(false);
+                    unreachable!()
+                }
+            };
+            RxPacket::Auth(AuthRx { reason, authentication_method: None, authentication_data: None, reason_string: None, user_property: UserProperties::new() })
+        } else {
+            RxPacket::Connack(ConnackRx {
+                session_present: kani::any(),
+                reason: ConnectReason::Success,
+                wildcard_subscription_available: WildcardSubscriptionAvailable::default(),
+                subscription_identifier_available: SubscriptionIdentifierAvailable::default(),
+                shared_subscription_available: SharedSubscriptionAvailable::default(),
+                maximum_qos: MaximumQoS::default(),
+                retain_available: RetainAvailable::default(),
+                server_keep_alive: None,
+                receive_maximum: ReceiveMaximum::default(),
+                topic_alias_maximum: TopicAliasMaximum::default(),
+                session_expiry_interval: None,
+                maximum_packet_size: None,
+                authentication_data: None,
+                assigned_client_identifier: None,
+                reason_string: None,
+                response_information: None,
+                server_reference: None,
+                authentication_method: None,
+                user_property: UserProperties::new(),
+            })
+        };
+        let res = {
+            let mut f = core::pin::pin!(CtxR::handle_packet(&mut tx, &mut connection, &mut session, pkt));
+            match core::future::Future::poll(f.as_mut(), &mut cx) {
+                core::task::Poll::Ready(x) => x,
+                core::task::Poll::Pending => panic!("handled without waiting for anything"),
+            }
+        };
+        assert!(out_n() == 0, "nothing is written in response");
+        assert!(connection.send_quota == q && connection.remote_receive_maximum == r, "quota untouched");
+        assert!(session.awaiting_ack.len() == 1 && session.retrasmit_queue.len() == 1 && matches!(rcv0.try_recv(), Ok(None)), "pending operations untouched");
+        kani::cover!(res.is_ok(), "opt: keeps serving");
+        kani::cover!(res.is_err(), "opt: returns an error");
+        core::mem::forget(res);
+        core::mem::forget(session);
+        core::mem::forget(rcv0);
+    }
+    #[kani::proof]
+    #[kani::unwind(6)]
+    pub(crate) fn step_pkt_unexpected_auth() {
+        step_unexpected_body(0);
+    }
+    #[kani::proof]
+    #[kani::unwind(6)]
+    pub(crate) fn step_pkt_unexpected_connack() {
+        step_unexpected_body(1);
+    }
 }
